@@ -316,7 +316,9 @@ package route
 //@ uninterpreted countGroups(pattern string) int
 
 //@ func NewTree
-//@   props C08
+//@   props C08 C10
+//@   requires treeWF()
+//@   ensures treeWF()
 //@   ensures dyn(result) == type(*baseTree) && fresh(result)
 //@   ensures len(result.(*baseTree).subtrees) == 0 && len(result.(*baseTree).leaves) == 0 && result.(*baseTree).parent == nil
 //@   ensures bareOK(result)
@@ -525,6 +527,11 @@ package route
 
 // The parser (participle, third-party, reflection-driven) is outside the reach of contracts: assumed here,
 // audited by the bounded stand-in of C06.
+// building the participle parser touches no flamego object (assumed: third-party, reflection-driven)
+//@ trusted route.NewParser() p, err
+//@   allocates
+//@   modifies nothing
+//@   ensures err == nil ==> p != nil && fresh(p)
 //@ trusted (*route.Parser).Parse(p, s) r, err
 //@   requires treeWF()
 //@   ensures err == nil ==> routeWF(r)
